@@ -155,6 +155,8 @@ def import_from_sympy_latex(expr_string: str,
                 base = Amplitude(name, upper, lower)
             elif name == tensor_names.coulomb:  # eri in chemist notation
                 base = SymmetricTensor(name, upper, lower)
+            elif name == tensor_names.sym_orb_denom:  # symbolic denominator
+                base = SymmetricTensor(name, upper, lower)
             else:
                 base = AntiSymmetricTensor(name, upper, lower)
         elif len(indices) == 1:  # nonsymtensor
